@@ -90,8 +90,11 @@ def _non_ascii_digits(ctx, name, pool, rng):
         if not idx:
             continue
         i = rng.choice(idx)
-        for base in (0xFF10, 0x0660, 0x0966):
-            t = s[:i] + chr(base + int(s[i])) + s[i + 1:]
+        j = rng.randint(0, len(s))
+        cands = [s[:i] + chr(base + int(s[i])) + s[i + 1:] for base in (0xFF10, 0x0660, 0x0966)]
+        # ... and a non-ASCII character inserted (rpm ignores such characters, others may read them as separators)
+        cands += [s[:j] + ch + s[j:] for ch in ("\u00e9", "\uff10", "\u00b7", "\u200b")]
+        for t in cands:
             try:
                 w = cls(t)
                 eq = bool(w == v) and bool(v == w)
